@@ -8,6 +8,8 @@ from ..runs_run import run_programs, run_one
 
 RULE = ("engine histories (closing-update discipline as in Backtest.run) and whole generated backtests; ledger equation per node "
         "and closed date from recorded series; every executed trade checked against q*p*m + spread and commission(q, p*m); "
+        "histories of set_commissions calls at different nodes (re-imposed function objects, sub-strategy schedules, late children) with "
+        "every trade charged the function last set on its parent or an ancestor; "
         "steps re-executed by the Lean model, compared inside the C07 footprint. distinct = (tree shape, op, outcome, integer, commission) "
         "/ (program shape)")
 ASSUMPTIONS = ["dates are closed by an update before the clock moves (what Backtest.run does); rows of a date left stale by the caller are not judged"]
@@ -78,6 +80,10 @@ def run(ctx, bt):
     from .. import whole_run as W
     # complete backtests of program trees (flat and nested, shadow copies included) executed end to end by the model
     W.whole_run_protocol(ctx, bt, ctx.scale(15, 300), "whole-run[C07]", footprint_fields=FOOT_FIELDS)
+    # which commission function is charged: set_commissions calls at different nodes and times (the top again with the same function
+    # object, a sub-strategy's own schedule, children attached in between) interleaved with trades on two / three strategy levels
+    from .. import comm_schedules as _CS
+    _CS.run_family(ctx, bt, ctx.scale(40, 600))
 
 
 def search(ctx, bt):
@@ -92,7 +98,10 @@ def search(ctx, bt):
 def replay(bt, data, ctx):
     case = data["case"]
     spec = case["spec"]
-    if case.get("mode") == "program":
+    if case.get("mode") == "schedule":
+        from .. import comm_schedules as _CS
+        _CS.run_case(ctx, bt, spec)
+    elif case.get("mode") == "program":
         run_one(ctx, bt, spec, check_program)
     else:
         steps, root, dates = run_history_observed(bt, spec, ctx.rng, len(spec["ops"]), [Monitor(ctx)], ctx)
